@@ -89,6 +89,13 @@ def tree_data(with_names=True, drop=None, flat=False, hmap=False,
             # the HDF5 output follow this order)
             extra.update(d['class'])
             d['class'] = extra
+    if shared_label:
+        # the label 'c2' is used at two levels (subclass and cluster)
+        # with different display names
+        d['class']['clsB'] = ['c2', 'subC']
+        d['subclass']['c2'] = d['subclass'].pop('subB')
+        nm['subclass']['c2'] = {'name': 'Sub B (shares its label)'}
+        nm['subclass'].pop('subB')
     if with_names:
         d['name_mapper'] = nm
     if hmap:
